@@ -30,11 +30,14 @@ class C06(Prop):
                   "removal of that class in between return the same id; the sharded machine is simulated along every schedule by the single-map "
                   "reference machine (same trace, same return values and listings, each hash band of the single map = the shard); at quiescence "
                   "visit/handles return exactly the live entries once, delete returns true iff present and removes exactly that class, a retain call "
-                  "leaves exactly the matching entries and a clear call nothing (machine-level, the call run alone); the model's run of every case "
+                  "leaves exactly the matching entries and a clear call nothing (machine-level, the call run alone); a get_or_create whose closure panics changes "
+                  "the registry exactly as the returning call does (C06_panicking_closure_as_returning_call; lock poisoning is not state because every accessor "
+                  "recovers the guard); the model's run of every case "
                   "whose keys carry one hash per class passes spec_ok (C06_spec_ok_on_model) and spec_ok = true implies agreement with the single-map replay "
                   "(C06_spec_ok_sound; the converse is not stated). Tied to /repo by "
                   "replaying histories and schedules on the real code (key pools from distinct allocations and storage-aliased families: slices of one static buffer) "
-                  "plus three oracle engines (free-running stress; key-side state racing registry operations; bulk history over aliased keys).")
+                  "plus four oracle engines (free-running stress; key-side state racing registry operations; bulk history over aliased keys; panicking closures / "
+                  "poisoned locks incl. panicking retain predicates and visit callbacks).")
     level_note = ("SC interleaving at lock granularity: RwLock and hashbrown are trusted to give mutual exclusion / map semantics (a shard is an "
                   "association list searched by (hash, ==)). retain/clear/visit are modelled as the code is: one shard lock after the other, so "
                   "they are not atomic over the registry (the reference machine sweeps the single map band by band in the same way). The executable "
@@ -44,11 +47,15 @@ class C06(Prop):
                   "assume key_contract, which for a lazily hashed key used and cloned concurrently is C03's theorem (C03_get_hash_stable_under_races: "
                   "every get_hash / clone-then-get_hash returns the true hash under every schedule; C06's invariants and refinement hold under the "
                   "contract). For C06 that race is covered by the keyrace engine only (directed schedules over sites 301-306 and free-running rounds on "
-                  "the real registry, judged by an oracle, not compared with the Coq model).")
+                  "the real registry, judged by an oracle, not compared with the Coq model). Panicking closures: only get_or_create's closure is a model operation "
+                  "(both paths); a retain predicate or visit callback that panics midway is judged by the panics engine's reference map only (its effect depends "
+                  "on hashbrown's iteration order).")
     rule = ("histories: 1 thread, 4-14 calls over 2-5 key classes (variants = equal keys built differently incl. two labels sharing a name in either "
             "order and identical labels; same-name pairs inside 3+ labels are distinct classes; classes chosen to collide in one "
             "shard half of the time), all three kinds, every call kind; exhaustive schedules of {2 creators}, {creator || create;delete}, "
-            "{create;get || delete} (thorough: + {creator || retain}, {2x2 calls}); directed same-shard triples {creator K || creator K or K2 || "
+            "{create;get || delete} (thorough: + {creator || retain}, {2x2 calls}); get_or_create calls whose closure panics (histories, races, aliased "
+            "families) followed by ordinary calls on the same and other shards; storage-aliased key families (slices of one static buffer: prefix "
+            "families, twins, overlapping windows, classes of one (shard, hashbrown tag) bucket); directed same-shard triples {creator K || creator K or K2 || "
             "create Y; delete/retain/clear Y} with the size-preserving interleaving and perturbations of it; races: 2-3 threads x 1-2 calls ({2 creators same key}, {creator || "
             "deleter}, {creator || retain/clear}, mixed), random/bursty schedules + round-robin tail; non-trivial = some storage constructed and "
             "(a removal or a second creator of a live class or >=2 threads reaching their locks); distinct = distinct (programs, executed trace)")
@@ -150,9 +157,9 @@ class C06(Prop):
         if rng.chance(2, 3):
             ops = []
             for _ in range(rng.range(4, 10)):
-                what = rng.weighted([(8, "C"), (4, "G"), (3, "D"), (1, "R"), (1, "V"), (2, "H")])
+                what = rng.weighted([(8, "C"), (2, "P"), (4, "G"), (3, "D"), (1, "R"), (1, "V"), (2, "H")])
                 d = rng.pick(kinds)
-                if what in "CGD":
+                if what in "CGDP":
                     c = rng.pick(cls)
                     ops.append([what, d] + (akey(c) if c >= self.ALIAS0 else self.key(c, rng.below(NVAR))))
                 elif what == "R":
@@ -192,7 +199,7 @@ class C06(Prop):
     def rand_op(self, rng, classes, kinds, w):
         kd = rng.pick(kinds)
         what = rng.weighted(w)
-        if what in "CGD":
+        if what in "CGDP":
             return [what, kd] + self.key(rng.pick(classes), rng.below(NVAR))
         if what == "R":
             keep = [c for c in classes if rng.chance(1, 2)]
@@ -207,7 +214,7 @@ class C06(Prop):
         k = self.table()["k"]
         out = []
         for f, j in super().corpus():
-            progs = [[(o[:2] + self.key(o[2], o[3])) if o[0] in "CGD" else o for o in p] for p in j["case"]["progs"]]
+            progs = [[(o[:2] + self.key(o[2], o[3])) if o[0] in "CGDP" else o for o in p] for p in j["case"]["progs"]]
             j = dict(j, case=dict(j["case"], k=k, progs=progs))
             out.append((f, j))
         return out
@@ -269,7 +276,7 @@ class C06(Prop):
                 cases.append(self.alias_case(rng, k))
                 continue
             if mode == "hist":
-                w = [(8, "C"), (3, "G"), (4, "D"), (2, "R"), (1, "X"), (2, "V"), (3, "H")]
+                w = [(7, "C"), (3, "P"), (3, "G"), (4, "D"), (3, "R"), (1, "X"), (2, "V"), (3, "H")]
                 progs = [[self.rand_op(rng, classes, kinds, w) for _ in range(rng.range(4, 14))]]
                 sched = []
             else:
@@ -300,7 +307,7 @@ class C06(Prop):
                     if rng.chance(1, 4):
                         progs.append([mk("C", rng.pick(classes))])
                 else:
-                    w = [(8, "C"), (2, "G"), (4, "D"), (1, "R"), (1, "X"), (1, "V"), (1, "H")]
+                    w = [(7, "C"), (2, "P"), (2, "G"), (4, "D"), (2, "R"), (1, "X"), (1, "V"), (1, "H")]
                     progs = [[self.rand_op(rng, classes, kinds, w) for _ in range(rng.range(1, 2))] for _ in range(rng.range(2, 3))]
                 nt = len(progs)
                 total = sum(1 + sum(self.oplen(o) for o in p) for p in progs)
@@ -313,7 +320,34 @@ class C06(Prop):
                     else:
                         sched.append(rng.below(nt + (1 if style == 2 else 0)))
             cases.append(dict(k=k, progs=progs, sched=sched))
+        # a creator whose closure panics in some directed / racing cases too
+        for c in cases[len(self.enumerated(n)) if n >= 300 else 0:]:
+            if len(c["progs"]) > 1 and rng.chance(1, 5):
+                c["progs"] = [[(["P"] + o[1:]) if o[0] == "C" and rng.chance(1, 2) else o for o in p] for p in c["progs"]]
+        self.panic_stats(cases)
         return cases
+
+    _panic_stats = None
+
+    def panic_stats(self, cases):
+        """generated panicking-closure calls, and calls made afterwards on the same (kind, shard) / sweeps of that kind (program order)"""
+        st = self._panic_stats or dict(panicking_get_or_create=0, later_ops_same_kind_and_shard=0, later_sweeps_of_that_kind=0, cases_with_panic=0)
+        self._panic_stats = st
+        m = self.table()["shards"] - 1
+        for c in cases:
+            hit = set()
+            anyp = False
+            for p in c["progs"]:
+                for o in p:
+                    if o[0] in "CGDP" and (o[1], o[4] & m) in hit:
+                        st["later_ops_same_kind_and_shard"] += 1
+                    if (o[0] in "RVH" and any(kd == o[1] for kd, _ in hit)) or (o[0] == "X" and hit):
+                        st["later_sweeps_of_that_kind"] += 1
+                    if o[0] == "P":
+                        st["panicking_get_or_create"] += 1
+                        hit.add((o[1], o[4] & m))
+                        anyp = True
+            st["cases_with_panic"] += 1 if anyp else 0
 
     def aba_case(self, rng, k, exact=False):
         """three overlapping calls on keys of ONE shard: creator A of K misses under the read lock; before it
@@ -365,12 +399,12 @@ class C06(Prop):
 
     def oplen(self, o):
         n = self.table()["shards"]
-        return {"C": 2, "G": 1, "D": 1, "R": n, "X": 3 * n, "V": n, "H": n}[o[0]]
+        return {"C": 2, "P": 2, "G": 1, "D": 1, "R": n, "X": 3 * n, "V": n, "H": n}[o[0]]
 
     # ---- text forms
     def op_txt(self, o):
         t = o[0]
-        if t in "CGD":
+        if t in "CGDP":
             return "%s%s%d:%d" % (t, o[1], o[2], o[3])
         if t == "R":
             return "R%s%s" % (o[1], "".join("+%d" % c for c in o[2]))
@@ -401,6 +435,8 @@ class C06(Prop):
         t = o[0]
         if t == "C":
             return "CCreate %s %s" % (KCOQ[o[1]], self.coq_key(o[2:5]))
+        if t == "P":
+            return "CCreateP %s %s" % (KCOQ[o[1]], self.coq_key(o[2:5]))
         if t == "G":
             return "CGet %s %s" % (KCOQ[o[1]], self.coq_key(o[2:5]))
         if t == "D":
@@ -424,6 +460,8 @@ class C06(Prop):
         def res(t):
             if t[0] == "S":
                 return "CS %s" % cq_N(int(t[1:]))
+            if t[0] == "Q" and t[1:].isdigit():
+                return "CQ %s" % cq_N(int(t[1:]))
             if t[0] == "O":
                 return "CO (Some %s)" % cq_N(int(t[1:]))
             if t == "N":
@@ -451,7 +489,7 @@ class C06(Prop):
             return None
         nthreads = len([p for p in c["progs"] if p])
         removal = any(op[0] in "DRX" for p in c["progs"] for op in p)
-        creates = [(op[1], op[2]) for p in c["progs"] for op in p if op[0] == "C"]
+        creates = [(op[1], op[2]) for p in c["progs"] for op in p if op[0] in "CP"]
         second = len(creates) > len(set(creates))
         if not (removal or second or nthreads >= 2):
             return None
@@ -495,7 +533,7 @@ class C06(Prop):
         ctx["coverage"]["stress_runs"] = runs
         ctx["coverage"]["stress_dimensions"] = ("STRESS 8 threads x %d iterations x 3 seeds; phase 2: %d barrier rounds per run" % (iters, max(iters // 20, 50)))
         # key-side state racing registry operations (const-constructed, never hashed keys; clones taken during the first use)
-        rounds, budget = (30000, 5000) if ctx["tier"] == "quick" else (600000, 60000)
+        rounds, budget = (20000, 3000) if ctx["tier"] == "quick" else (600000, 60000)
         kruns = []
         for rep in range(2):
             cmd = "KEYRACE %d %d %d" % (rounds, budget, ctx["seed"] * 2 + rep)
@@ -524,6 +562,22 @@ class C06(Prop):
                             "the one of the key's own class (another key's storage was returned or shared, a listing lost or duplicated a class, delete untruthful)",
                             dict(observed=line, stderr=err[-500:], cmd=cmd)))
                 break
+        # panicking caller-supplied closures / poisoned shard locks, judged by a reference map
+        pr = 300 if ctx["tier"] == "quick" else 3000
+        pruns = []
+        for rep_ in range(2):
+            cmd = "PANICS %d %d" % (pr, ctx["seed"] * 2 + rep_)
+            rc, outs, err = core.run_impl(ctx["binpath"], [cmd], timeout=600)
+            line = outs[0] if outs else ""
+            pruns.append(line)
+            if rc != 0 or not line.startswith("PANICS ok=1 "):
+                out.append(("panics", "sequential rounds with panicking caller-supplied closures (get_or_create on the create path -> the entry is inserted and the "
+                            "shard lock poisoned; on the hit path; a retain predicate / visit callback panicking at its n-th call), each followed by ordinary "
+                            "operations on every shard, judged by a reference map: a get / delete / visit was not truthful, a retain did not offer every live "
+                            "entry exactly once to its predicate, or clear left entries behind", dict(observed=line, stderr=err[-500:], cmd=cmd)))
+                break
+        ctx["coverage"]["panics_runs"] = pruns
+        ctx["coverage"]["panicking_closures_in_replayed_cases"] = self._panic_stats
         ctx["coverage"]["alias_bulk_runs"] = aruns
         ctx["coverage"]["alias_replayed_cases"] = self._alias_stats
         ctx["coverage"]["keyrace_runs"] = kruns
